@@ -148,12 +148,13 @@ let run (ws : string list) : string =
     let ((w, _), out) = Prog.run_prog fuel (parse_ms ms) objs (parse_bodies bodies) (parse_script script) (n_of_string rseed) in
     let evs = Stdlib.List.rev_map show_event w.Exec.w_trace in
     String.concat " " (evs @ ["T=" ^ show_outcome out; "S=" ^ show_sched w.Exec.w_e.Exec.recorded])
-  | ["progdfs"; ms; mi; objs; bodies] ->
+  | ["progdfs"; ms; mi; allow; objs; bodies] ->
     let cap = 3000 in
     let mi = if mi = "-" then cap else min (int_of_string mi) cap in
     let objs = Stdlib.List.mapi parse_obj (split_on ',' objs) in
-    let ((execs, _), _) = Prog.run_prog_dfs (nat_of_int (cap + 1)) fuel (parse_ms ms) (Some (nat_of_int mi)) objs (parse_bodies bodies) in
+    let ((execs, _), _) = Prog.run_prog_dfs (nat_of_int (cap + 1)) fuel (parse_ms ms) (Some (nat_of_int mi)) (allow = "1") objs (parse_bodies bodies) in
     let failed = Stdlib.List.exists (fun (_, o) -> Runner.is_failure o) execs in
-    let show (w, o) = "S=" ^ show_sched w.Exec.w_e.Exec.recorded ^ ":T=" ^ show_outcome o in
+    let draws w = String.concat "." (Stdlib.List.rev (Stdlib.List.filter_map (function Exec.EvRandom v -> Some (string_of_n v) | _ -> None) w.Exec.w_trace)) in
+    let show (w, o) = "S=" ^ show_sched w.Exec.w_e.Exec.recorded ^ ":R=" ^ draws w ^ ":T=" ^ show_outcome o in
     "N=" ^ (if failed then "fail" else string_of_int (Stdlib.List.length execs)) ^ " " ^ String.concat " | " (Stdlib.List.map show execs)
   | _ -> failwith "prog: bad case"
